@@ -206,6 +206,7 @@ class Interp:
             preset_attrs: Optional[Dict[Tuple[T, str], T]] = None) -> Result:
         self.events = []
         self._narrow = []
+        self._root = fn
         self.attrs = dict(preset_attrs or {})
         frame = self._make_frame(fn, args or {}, self_cls, depth=0)
         self.stack.append(fn.qualname)
@@ -497,6 +498,16 @@ class Interp:
                 tm.mk_or(*parts)
         if c.op in ("and", "or", "not"):
             return c
+        if c.op == "ite":
+            # a conditional *value* used as a condition (e.g. the result of
+            # an inlined predicate with early returns): (c and a) or
+            # (not c and b)
+            cc = self.as_cond(c.args[0])
+            a_, b_ = self.as_cond(c.args[1]), self.as_cond(c.args[2])
+            return tm.mk_or(tm.mk_and(cc, a_),
+                            tm.mk_and(tm.mk_not(cc), b_))
+        if c.op == "named":
+            return self.as_cond(c.args[1])
         if c.op == "call" and tm.callee_name(c) in ("builtins.any",
                                                     "builtins.all") and \
                 len(c.args[1]) == 1 and \
@@ -687,11 +698,17 @@ class Interp:
         if lit is not None and itu.op not in ("tuple", "list") and \
                 not is_range_literal(itu):
             itu = T("tuple", *lit)         # enumerate / zip of literals
+        has_jump = any(isinstance(n, (ast.Break, ast.Continue))
+                       for st in s.body for n in ast.walk(st))
+        nested_loop = any(isinstance(n, (ast.For, ast.While))
+                          for st in s.body for n in ast.walk(st))
         if itu.op in ("tuple", "list") and 0 < len(itu.args) <= 8 and \
                 not any(x.op == "star" for x in itu.args) and \
-                not s.orelse and not any(
-                    isinstance(n, (ast.Break, ast.Continue))
-                    for st in s.body for n in ast.walk(st)):
+                not s.orelse and has_jump and not nested_loop:
+            return self._unroll(s, list(itu.args), frame, live)
+        if itu.op in ("tuple", "list") and 0 < len(itu.args) <= 8 and \
+                not any(x.op == "star" for x in itu.args) and \
+                not s.orelse and not has_jump:
             # small literal iteration space: unroll (exact)
             for x in itu.args:
                 if tm.is_const(live, False):
@@ -777,10 +794,45 @@ class Interp:
     def st_Break(self, s, frame, live):
         if self.loop_pending:
             self.loop_pending[-1].append((live, dict(frame.env),
-                                          dict(self.attrs)))
+                                          dict(self.attrs), "break"))
         return FALSE
 
-    st_Continue = st_Break
+    def st_Continue(self, s, frame, live):
+        if self.loop_pending:
+            self.loop_pending[-1].append((live, dict(frame.env),
+                                          dict(self.attrs), "continue"))
+        return FALSE
+
+    def _unroll(self, s, items, frame: Frame, live: T) -> T:
+        """exact unrolling of a loop over a completely known iteration space,
+        including break / continue: a `continue` state rejoins before the
+        next item, a `break` state rejoins after the loop"""
+        breaks = []
+        for x in items:
+            if tm.is_const(live, False):
+                break
+            self.assign(s.target, x, frame, live, s)
+            self.loop_pending.append([])
+            out = self.exec_block(s.body, frame, live)
+            pend = self.loop_pending.pop()
+            conts = [p for p in pend if p[3] == "continue"]
+            breaks.extend(p for p in pend if p[3] == "break")
+            if tm.is_const(out, False) and conts:
+                lv, env, attrs, _ = conts.pop()
+                frame.env, self.attrs, out = dict(env), dict(attrs), lv
+            for lv, env, attrs, _ in reversed(conts):
+                frame.env = self._join(lv, env, frame.env)
+                self.attrs = self._join(lv, attrs, self.attrs)
+                out = tm.mk_or(out, lv)
+            live = out
+        if tm.is_const(live, False) and breaks:
+            lv, env, attrs, _ = breaks.pop()
+            frame.env, self.attrs, live = dict(env), dict(attrs), lv
+        for lv, env, attrs, _ in reversed(breaks):
+            frame.env = self._join(lv, env, frame.env)
+            self.attrs = self._join(lv, attrs, self.attrs)
+            live = tm.mk_or(live, lv)
+        return live
 
     def _merge_pending(self, frame: Frame, body_live: T):
         """state at the end of a loop body = fall-through state joined with
@@ -789,10 +841,10 @@ class Interp:
         if not pend:
             return
         if tm.is_const(body_live, False):
-            live0, env0, attrs0 = pend[-1]
+            live0, env0, attrs0, _ = pend[-1]
             pend = pend[:-1]
             frame.env, self.attrs = env0, attrs0
-        for (lv, env, attrs) in reversed(pend):
+        for (lv, env, attrs, _) in reversed(pend):
             frame.env = self._join(lv, env, frame.env)
             self.attrs = self._join(lv, attrs, self.attrs)
 
@@ -1100,7 +1152,8 @@ class Interp:
 
     def _root_func(self) -> Optional[Function]:
         if self.stack:
-            return self.prog.functions.get(self.stack[0])
+            return self.prog.functions.get(self.stack[0]) or \
+                getattr(self, "_root", None)
         return None
 
     def _class_from_annotation(self, ann: ast.AST, m: Module
@@ -1309,6 +1362,15 @@ class Interp:
                 all(x.op in ("const", "enum") for x in ru.args):
             isin = any(x == lu for x in ru.args)
             return const(isin if op == "In" else not isin)
+        if op in ("In", "NotIn"):
+            # membership of a closed value (tuples of constants / enum
+            # members) in a completely known collection
+            items = literal_items(ru, self.unname)
+            if items is not None and _closed(lu, self.unname) and all(
+                    _closed(x, self.unname) for x in items):
+                key = _canon(lu, self.unname)
+                isin = any(_canon(x, self.unname) == key for x in items)
+                return const(isin if op == "In" else not isin)
         if op in ("Lt", "LtE", "Gt", "GtE") and tm.is_const(lu) and \
                 tm.is_const(ru):
             try:
@@ -1348,7 +1410,7 @@ class Interp:
 
     # -------------------------------------------------------- comprehension
     def _comp(self, kind, n, elt_nodes, frame, live):
-        if kind in ("list", "dict") and len(n.generators) == 1 and \
+        if kind in ("list", "dict", "gen") and len(n.generators) == 1 and \
                 not n.generators[0].ifs:
             # small literal iteration space: the literal it denotes (exact)
             g = n.generators[0]
@@ -1363,8 +1425,8 @@ class Interp:
                     vals = [self.eval(e, frame, live) for e in elt_nodes]
                     out.append(vals[0] if len(vals) == 1 else tuple(vals))
                 frame.env = saved_env
-                return T("list", *out) if kind == "list" else \
-                    T("dict", *out)
+                return T("dict", *out) if kind == "dict" else \
+                    T("list", *out)
             del self.events[n0:]
         saved_env = dict(frame.env)
         loops = []
@@ -1693,7 +1755,51 @@ class Interp:
         finally:
             self.stack.pop()
         self._note_narrowing(newf, live, out)
+        self._propagate_mutations(target, argenv, newf, frame, live, node)
         return self._join_returns(newf, live)
+
+    @staticmethod
+    def _mutation_of(v: T, init: T, depth: int = 0) -> bool:
+        """v is `init` after in-place updates (item stores, mutating
+        methods, possibly in loops / branches) — not a re-binding"""
+        if v is init:
+            return True
+        if depth > 40 or not isinstance(v, T):
+            return False
+        if v.op in ("upd", "mut"):
+            return Interp._mutation_of(v.args[0], init, depth + 1)
+        if v.op == "loopvar":
+            return Interp._mutation_of(v.args[2], init, depth + 1)
+        if v.op == "loopout":
+            return Interp._mutation_of(v.args[2], init, depth + 1) and \
+                Interp._mutation_of(v.args[3], init, depth + 1) or \
+                (v.args[2] is init)
+        if v.op == "ite":
+            return Interp._mutation_of(v.args[1], init, depth + 1) and \
+                Interp._mutation_of(v.args[2], init, depth + 1)
+        return False
+
+    def _propagate_mutations(self, target: Function, argenv, newf: Frame,
+                             frame: Frame, live: T, node) -> None:
+        """a container mutated in place by the inlined callee is the
+        caller's object: make the caller's variable see the updated term"""
+        if not isinstance(node, ast.Call):
+            return
+        params = list(target.params)
+        if target.cls is not None and not target.is_static and params and \
+                isinstance(node.func, ast.Attribute):
+            params = params[1:]
+        pairs = list(zip(params, node.args)) + [
+            (k.arg, k.value) for k in node.keywords if k.arg]
+        for p, anode in pairs:
+            if isinstance(anode, ast.Starred) or p not in argenv:
+                continue
+            init, fin = argenv[p], newf.env.get(p)
+            if fin is None or fin is init or init.op in ("const",):
+                continue
+            if self._mutation_of(fin, init) and isinstance(
+                    anode, (ast.Name, ast.Attribute)):
+                self._rebind(anode, fin, frame, live)
 
     def _note_narrowing(self, newf: Frame, live: T, out: T) -> None:
         """condition (relative to the call site) under which the inlined
@@ -1747,6 +1853,24 @@ def _plain_fields(fmt_str: str) -> Optional[List[str]]:
     return pieces
 
 
+def _closed(t: T, unname=lambda v: v) -> bool:
+    t = unname(t)
+    if t.op in ("const", "enum"):
+        return True
+    if t.op in ("tuple", "list"):
+        return all(_closed(x, unname) for x in t.args)
+    return False
+
+
+def _canon(t: T, unname=lambda v: v):
+    t = unname(t)
+    if t.op == "const":
+        return ("c", t.args[1])
+    if t.op == "enum":
+        return ("e", t.args[0], t.args[1])
+    return ("t",) + tuple(_canon(x, unname) for x in t.args)
+
+
 def literal_items(it: T, unname=lambda v: v) -> Optional[List[T]]:
     """the items of an iteration space that is known completely: a literal
     tuple / list, range(consts), enumerate(...) or zip(...) of those"""
@@ -1779,6 +1903,25 @@ def literal_items(it: T, unname=lambda v: v) -> Optional[List[T]]:
         if any(c is None for c in cols):
             return None
         return [T("tuple", *row) for row in zip(*cols)]
+    if name in ("builtins.list", "builtins.tuple") and \
+            len(it.args[1]) == 1 and not it.args[2]:
+        return literal_items(it.args[1][0], unname)
+    if name == "itertools.product" and it.args[1] and not it.args[2]:
+        cols = [literal_items(a, unname) for a in it.args[1]]
+        if any(c is None for c in cols) or \
+                any(len(c) > 16 for c in cols):
+            return None
+        import itertools as _it
+        rows = list(_it.product(*cols))
+        return [T("tuple", *row) for row in rows] if len(rows) <= 64 \
+            else None
+    if name == "itertools.permutations" and len(it.args[1]) == 1 and \
+            not it.args[2]:
+        inner = literal_items(it.args[1][0], unname)
+        if inner is None or len(inner) > 4:
+            return None
+        import itertools as _it
+        return [T("tuple", *row) for row in _it.permutations(inner)]
     return None
 
 
